@@ -56,15 +56,14 @@ SPEC = dict(
                "advertised_eq_answered / advertised_eq_xep_hash_of_answer, advertised_node_always_answered (any node string), "
                "reply_features_nodup; for ALL client histories over {reconfigure, setClientPresence, connectToServer, session start / MUC join / "
                "disconnect, query}: every_emitted_presence_has_fresh_caps and every_emitted_presence_advertises_the_answer_of_that_moment "
-               "(unrestricted) and every_emitted_presence_advertises_the_wire_hash_of_the_answer; wire_view_is_one_value_per_element. One defect with witness: C20_defect_cr_in_form_value (code_eq_spec carries NoCR until fixed). Model tied to the real library by exhaustive-permutation + random correspondence, an "
+               "(unrestricted) and every_emitted_presence_advertises_the_wire_hash_of_the_answer; wire_view_is_one_value_per_element. No defect theorem is left. Model tied to the real library by exhaustive-permutation + random correspondence, an "
                "independent XEP implementation, and real client histories on a loopback connection.",
     level_note="Proved about the hand-written model; model-to-code tie is differential (all permutations of small sets, sampled beyond; sampled "
-               "client histories over every presence emission site). SHA-1 collision resistance is a named hypothesis. All eight deviations found "
-               "(collation, repeated features, boolean fields, value-less fields, stale caps at session start / MUC join / disconnect, empty non-null form value) are fixed "
+               "client histories over every presence emission site). SHA-1 collision resistance is a named hypothesis. All nine deviations found "
+               "(collation, repeated features, boolean fields, value-less fields, stale caps at session start / MUC join / disconnect, empty non-null form value, CR in a form value) are fixed "
                "in /repo (0beac74, eee8133, 03b8892, 032336b); their witnesses stay in the corpus and would now be violations. Verification of "
                "other entities' caps (XEP-0115 5.4) and XEP-0390 are out of scope (no code path / not emitted); presences the application "
-               "builds itself and sends with sendPacket are the application's own. Open: C20:cr-in-form-value-read-as-lf (a CR inside a form value is written "
-               "literally and read back as LF by a conforming peer; fixes/C20-cr-in-form-value.diff in the XML text helper).",
+               "builds itself and sends with sendPacket are the application's own.",
     design_ref="5.20",
     technique="Lean 4 proofs (sorting/permutation, injective encoding, UTF-8 order) + model/implementation correspondence + independent XEP-0115 oracle",
 )
